@@ -160,6 +160,28 @@ class P(Prop):
                         return f"step {t} (full PTI): electrical side supplies {o['elec'][t]} kW for {o['shaft'][t]} kW on the shaft"
         return None
 
+    @staticmethod
+    def pred_pti_curve(case, obs, params):
+        """a PTI/PTO stage whose efficiency points do not span loads 1/8..7/8 (extrapolated inside the operating range) or that
+        has a segment changing by >= 0.5 per unit load: the interpolated inverse of such a machine misses the 0.5 % bound"""
+        if not isinstance(case, dict) or "elec" not in case:
+            return False
+        for c in case["elec"]["comps"]:
+            if c["cls"] != "ptipto":
+                continue
+            for s_ in c.get("stages") or []:
+                pts = s_["eff"]
+                if len(pts) < 2 or not isinstance(pts[0], (list, tuple)):
+                    continue
+                p_ = sorted([[float(l), float(v)] for l, v in pts])
+                if p_[0][0] > 0.125 or p_[-1][0] < 0.875:
+                    return True
+                if any(abs((p_[i + 1][1] - p_[i][1]) / (p_[i + 1][0] - p_[i][0])) >= params.get("min_abs_slope", 0.5) for i in range(len(p_) - 1)):
+                    return True
+        return False
+
+    PREDICATES = {"pti_curve_steep_or_not_spanning_the_load_range": pred_pti_curve.__func__}
+
     def nontrivial(self, case, obs):
         return any(any(m["full"]) or any(e < 0 for e in m["e0"]) for m in case["machines"])
 
